@@ -195,6 +195,58 @@ theorem runStep_frame (S : Services α) (E E' : Env α) (op : SeqOp) (h : runSte
       cases hn : construct fs (none : Option (List α)) with
       | error e => rw [hn] at h; cases h
       | ok K' => rw [hn, except_ok_bind] at h; injection h with h; exact fresh K' h.symm
+  | smul k c =>
+    simp only [runStep] at h
+    cases hK : getK E k with
+    | error e => rw [hK] at h; cases h
+    | ok K =>
+      rw [hK, except_ok_bind] at h
+      cases hn : smul (c : α) K with
+      | error e => rw [hn] at h; cases h
+      | ok K' => rw [hn, except_ok_bind] at h; injection h with h; exact fresh K' h.symm
+  | neg k =>
+    simp only [runStep] at h
+    cases hK : getK E k with
+    | error e => rw [hK] at h; cases h
+    | ok K =>
+      rw [hK, except_ok_bind] at h
+      cases hn : neg K with
+      | error e => rw [hn] at h; cases h
+      | ok K' => rw [hn, except_ok_bind] at h; injection h with h; exact fresh K' h.symm
+  | pos k =>
+    simp only [runStep] at h
+    cases hK : getK E k with
+    | error e => rw [hK] at h; cases h
+    | ok K => rw [hK, except_ok_bind] at h; injection h with h; exact fresh _ h.symm
+  | permute k order =>
+    simp only [runStep] at h
+    cases hK : getK E k with
+    | error e => rw [hK] at h; cases h
+    | ok K =>
+      rw [hK, except_ok_bind] at h
+      cases hn : permute K order with
+      | error e => rw [hn] at h; cases h
+      | ok K' => rw [hn, except_ok_bind] at h; injection h with h; exact fresh K' h.symm
+  | symmetrize k =>
+    simp only [runStep] at h
+    cases hK : getK E k with
+    | error e => rw [hK] at h; cases h
+    | ok K =>
+      rw [hK, except_ok_bind] at h
+      generalize hf : (fun K0 : Ktensor α => match normalize S K0.copy (some .all) false .two none with
+        | .ok K1 => K1 | .error _ => K0) = f at h
+      cases hn : Sym.ksymmetrize f K with
+      | error e => rw [hn] at h; cases h
+      | ok K' => rw [hn, except_ok_bind] at h; injection h with h; exact fresh K' h.symm
+  | reconstruct k =>
+    simp only [runStep] at h
+    cases hK : getK E k with
+    | error e => rw [hK] at h; cases h
+    | ok K =>
+      rw [hK, except_ok_bind] at h
+      cases hn : construct K.factors (some K.weights) with
+      | error e => rw [hn] at h; cases h
+      | ok K' => rw [hn, except_ok_bind] at h; injection h with h; exact fresh K' h.symm
 
 /-- A re-parameterising step (`normalize`, `arrange`, `fixsigns` with or without reference,
 `redistribute`) replaces its receiver by a tensor of the same rank and shape that denotes the
@@ -288,6 +340,12 @@ theorem runStep_reparam {S : Services α} (hS : S.Lawful) (E E' : Env α) (op : 
   | sub _ _ => cases hr
   | tolist _ _ => cases hr
   | construct _ => cases hr
+  | smul _ _ => cases hr
+  | neg _ => cases hr
+  | pos _ => cases hr
+  | permute _ _ => cases hr
+  | symmetrize _ => cases hr
+  | reconstruct _ => cases hr
 
 end field
 end Ktensor
